@@ -170,6 +170,15 @@ var validated = make(map[*AttributeExpr]bool)
 // TaggedAttribute returns the name of the child attribute of a with the given
 // tag if a is an object.
 func TaggedAttribute(a *AttributeExpr, tag string) string {
+	return taggedAttribute(a, tag, make(map[*AttributeExpr]struct{}))
+}
+
+// taggedAttribute implements TaggedAttribute, seen guards against cyclical bases.
+func taggedAttribute(a *AttributeExpr, tag string, seen map[*AttributeExpr]struct{}) string {
+	if _, ok := seen[a]; ok {
+		return ""
+	}
+	seen[a] = struct{}{}
 	obj := AsObject(a.Type)
 	if obj == nil {
 		return ""
@@ -184,7 +193,7 @@ func TaggedAttribute(a *AttributeExpr, tag string) string {
 		if ut, ok := b.(UserType); ok {
 			at = ut.Attribute()
 		}
-		if n := TaggedAttribute(at, tag); n != "" {
+		if n := taggedAttribute(at, tag, seen); n != "" {
 			return n
 		}
 	}
